@@ -347,6 +347,7 @@ func (l *lane) up() error {
 		}
 	}
 	l.cli = newClients(l.cl)
+	l.cli.onNudge = func() { l.r.Count("follower_write_nudges", 1) }
 	return nil
 }
 
@@ -520,6 +521,15 @@ func classKey(q *request) string {
 	if m, ok := q.Msg.(*pb.CreateTableRequest); ok && m != nil && q.Method == mCreate && m.Name != "" && !plainName(m.Name) {
 		return "hostile:" + nameClass(m.Name)
 	}
+	if maxLimit(q.Msg) >= 1<<30 {
+		// reads whose limit no table could ever satisfy (typed, nested, or a raw mutant that
+		// decodes), one class per read path
+		path := q.Method
+		if q.Method == mTxn && isWrite(q) {
+			path += "(writing)"
+		}
+		return "huge-limit|" + path
+	}
 	b := q.Raw
 	if !q.IsRaw && q.Msg != nil {
 		b, _ = q.Msg.MarshalVT()
@@ -574,6 +584,9 @@ func (l *lane) catalogue() []*request {
 		}
 		return q
 	}
+	// hostile (but legal) numeric fields first: limits no table can satisfy, on every read path,
+	// over ranges that HOLD keys (t1 carries the prelude's a, ab, k1, zz at this point)
+	out = append(out, hugeLimitCases(l.id%2 == 0, e.hasFoll)...)
 	if l.id%2 == 0 {
 		for _, m := range []string{mRange, mIterate} {
 			for _, k := range rangeViolations {
@@ -666,6 +679,44 @@ func (l *lane) catalogue() []*request {
 				}
 			}
 		}
+	}
+	return out
+}
+
+// hugeLimitCases: valid reads with limits far beyond anything storable, through Range,
+// IterateRange, a read-only transaction and a writing transaction (the nested read then runs in
+// the Raft apply path), on the leader and through the follower.
+func hugeLimitCases(full, foll bool) []*request {
+	t := []byte("t1")
+	all := []byte{0}
+	rng := func(lim int64, keysOnly bool) *pb.RequestOp {
+		return &pb.RequestOp{Request: &pb.RequestOp_RequestRange{RequestRange: &pb.RequestOp_Range{Key: all, RangeEnd: all, Limit: lim, KeysOnly: keysOnly}}}
+	}
+	put := &pb.RequestOp{Request: &pb.RequestOp_RequestPut{RequestPut: &pb.RequestOp_Put{Key: []byte("k1"), Value: []byte("v0")}}}
+	var out []*request
+	lims := hugeLimits[:5]
+	if !full {
+		lims = lims[:1]
+	}
+	for i, lim := range lims {
+		out = append(out,
+			&request{Method: mRange, Kind: "valid", Msg: &pb.RangeRequest{Table: t, Key: all, RangeEnd: all, Limit: lim}},
+			&request{Method: mRange, Kind: "valid", Msg: &pb.RangeRequest{Table: t, Key: []byte("a"), RangeEnd: []byte("b"), Limit: lim, KeysOnly: true, Linearizable: true}},
+			&request{Method: mIterate, Kind: "valid", Msg: &pb.RangeRequest{Table: t, Key: all, RangeEnd: all, Limit: lim}},
+			&request{Method: mTxn, Kind: "valid", Msg: &pb.TxnRequest{Table: t, Success: []*pb.RequestOp{rng(lim, false)}}},
+			&request{Method: mTxn, Kind: "valid", Msg: &pb.TxnRequest{Table: t, Success: []*pb.RequestOp{put, rng(lim, i%2 == 1)}}},
+			// … and in the branch that a failing compare selects
+			&request{Method: mTxn, Kind: "valid", Msg: &pb.TxnRequest{Table: t, Compare: []*pb.Compare{{Key: []byte("no-such-key")}}, Failure: []*pb.RequestOp{rng(lim, false), put}}},
+		)
+	}
+	if foll {
+		lim := hugeLimits[0]
+		out = append(out,
+			&request{Follower: true, Method: mRange, Kind: "valid", Msg: &pb.RangeRequest{Table: t, Key: all, RangeEnd: all, Limit: lim}},
+			&request{Follower: true, Method: mIterate, Kind: "valid", Msg: &pb.RangeRequest{Table: t, Key: all, RangeEnd: all, Limit: lim - 1}},
+			&request{Follower: true, Method: mTxn, Kind: "valid", Msg: &pb.TxnRequest{Table: t, Success: []*pb.RequestOp{rng(lim, true)}}},
+			&request{Follower: true, Method: mTxn, Kind: "valid", Msg: &pb.TxnRequest{Table: t, Success: []*pb.RequestOp{put, rng(lim, false)}}},
+		)
 	}
 	return out
 }
@@ -1159,6 +1210,8 @@ func (l *lane) crashed(q *request, exp expectation, out outcome) {
 			kind = nameClass(m.Name)
 		} else if exp.Rule != "" {
 			kind = exp.Rule
+		} else if maxLimit(q.Msg) >= 1<<30 {
+			kind = "huge-limit"
 		}
 		sig := fmt.Sprintf("crash-%s-%s-%s", role, methodSlug(q.Method), kind)
 		if site := panicSite(excerpt); site != "" {
